@@ -35,7 +35,7 @@ import zlib
 import numpy as np
 import yaml
 
-from harness.common import SEED, Check, MachineryError, parse_printed_json, quiet_pydrex, run_tlc, scratch
+from harness.common import SEED, Check, MachineryError, parse_printed_json, client_logging, quiet_pydrex, run_tlc, scratch
 
 NAN = float("nan")
 INF = float("inf")
@@ -467,7 +467,25 @@ class Bench:
             os.unlink(self.path)
 
 
+_CALLS = [0]
+
+
 def evaluate(bench, abstract, tables, tamper=None):
+    """One valid case under the client's logging configuration of the moment (common.client_logging)."""
+    _CALLS[0] += 1
+    with client_logging(_CALLS[0]):
+        return _evaluate(bench, abstract, tables, tamper)
+
+
+def evaluate_fault(bench, case, tables, producer, unfaulted=False):
+    """One fault case under the client's logging configuration of the moment: a refusal does not depend on how
+    verbose the client wants the library's logger to be."""
+    _CALLS[0] += 1
+    with client_logging(_CALLS[0]):
+        return _evaluate_fault(bench, case, tables, producer, unfaulted)
+
+
+def _evaluate(bench, abstract, tables, tamper=None):
     """Run one valid case.  Returns (failures, built); failures == [] means the property held."""
     b = build(abstract, tables)
     if b.empty:
@@ -615,7 +633,7 @@ def write_file_by_hand(path, schema, names, data):
             w.writerow(row)
 
 
-def evaluate_fault(bench, case, tables, producer, unfaulted=False):
+def _evaluate_fault(bench, case, tables, producer, unfaulted=False):
     """Run one fault case through one producer.  Returns None if refused with SCSVError,
     else a failure record."""
     schema, data, names, b = fault_concrete(case, tables, unfaulted)
